@@ -257,14 +257,15 @@ theorem condense_mass_k (E : Env) (a n : Annotation) (p : ℕ) (hiso : a.isotope
   simpa using hb
 
 /-- **mass preserved with an isotope label in force** (labels expanded per residue, the terminal H / OH shift written once on
-the termini): in a table-coherent environment the mass of the output differs from the mass of the labelled input by at most
+the termini), every modification resolving: in a table-coherent environment the mass of the output differs from the mass of the labelled input by at most
 ½·10⁻ᵖ per number written, plus 10⁻⁶ per nonzero quantity below the cut-off (residue totals, the two terminal label shifts),
 plus the `slack`: the total discrepancy between the tabulated masses (`mod_mass`) and the composition masses of the
 modifications written outside residue positions — the labelled input is weighed through compositions, the sums written for
 termini / labile / unknown-position / interval modifications through `mod_mass`. -/
 theorem condense_mass_label (E : Env) (hc : Coherent E) (a n : Annotation) (p : ℕ) (m0 : Mod) (L : List Mod) (lm : LabelMap)
     (hiso : a.isotope = some (m0 :: L)) (hl : parseIsotopeMods E.knownLabel (m0 :: L) = .ok lm) (hr : InRange a)
-    (hn : ∀ i : ℤ, E.mu (.int i) = i) (h : condenseToMassAnn E a p = .ok n) :
+    (hn : ∀ i : ℤ, E.mu (.int i) = i) (hres : ∀ c, condenseStatic a = .ok c → ∀ m ∈ allMods c, isBad E m = false)
+    (h : condenseToMassAnn E a p = .ok n) :
     ∃ c s x, condenseStatic a = .ok c ∧ shiftsOf E c p = .ok s ∧ n = render c s p ∧ massOf E a = .ok x ∧
       |outMass E c s p - x| ≤ (writtenL c s : ℚ) * halfUlp p + (droppedL E lm c : ℚ) * threshold + slack E c := by
   obtain ⟨c, s, hcd, hs, hn'⟩ := condenseToMassAnn_eq E a n p h
@@ -275,7 +276,7 @@ theorem condense_mass_label (E : Env) (hc : Coherent E) (a n : Annotation) (p : 
     have := Except.ok.inj this
     rw [this]
   have hst := condenseStatic_static a c hcd
-  obtain ⟨x, hx, hb⟩ := outMass_err_label E hc c p s m0 L lm hst hciso hl (inRange_condense a c hcd hr) hn hs
+  obtain ⟨x, hx, hb⟩ := outMass_err_label E hc c p s m0 L lm hst hciso hl (inRange_condense a c hcd hr) hn (hres c hcd) hs
   have hxa : massOf E a = .ok x := by
     have h1 : massOf E a = massLabel E a := by simp [massOf, hiso]
     have h2 : massOf E c = massLabel E c := by simp [massOf, hciso]
@@ -291,12 +292,13 @@ tabulated mass within `δ` of the mass of its composition (a hypothesis on the R
 theorem condense_mass_label_delta (E : Env) (hc : Coherent E) (a n : Annotation) (p : ℕ) (m0 : Mod) (L : List Mod)
     (lm : LabelMap) (δ : ℚ)
     (hiso : a.isotope = some (m0 :: L)) (hl : parseIsotopeMods E.knownLabel (m0 :: L) = .ok lm) (hr : InRange a)
-    (hn : ∀ i : ℤ, E.mu (.int i) = i) (h : condenseToMassAnn E a p = .ok n)
+    (hn : ∀ i : ℤ, E.mu (.int i) = i) (hres : ∀ c, condenseStatic a = .ok c → ∀ m ∈ allMods c, isBad E m = false)
+    (h : condenseToMassAnn E a p = .ok n)
     (hδ : ∀ c, condenseStatic a = .ok c → ∀ m ∈ outsideMods c, |modMass E m - modMass (envC E) m| ≤ δ) :
     ∃ c s x, condenseStatic a = .ok c ∧ shiftsOf E c p = .ok s ∧ n = render c s p ∧ massOf E a = .ok x ∧
       |outMass E c s p - x| ≤ (writtenL c s : ℚ) * halfUlp p + (droppedL E lm c : ℚ) * threshold +
         δ * ((outsideMods c).length : ℚ) := by
-  obtain ⟨c, s, x, hcd, hs, hn', hx, hb⟩ := condense_mass_label E hc a n p m0 L lm hiso hl hr hn h
+  obtain ⟨c, s, x, hcd, hs, hn', hx, hb⟩ := condense_mass_label E hc a n p m0 L lm hiso hl hr hn hres h
   refine ⟨c, s, x, hcd, hs, hn', hx, ?_⟩
   have := slack_le E c δ (hδ c hcd)
   linarith
@@ -305,11 +307,12 @@ theorem condense_mass_label_delta (E : Env) (hc : Coherent E) (a n : Annotation)
 theorem condense_mass_label_exact (E : Env) (hc : Coherent E) (a n : Annotation) (p : ℕ) (m0 : Mod) (L : List Mod)
     (lm : LabelMap)
     (hiso : a.isotope = some (m0 :: L)) (hl : parseIsotopeMods E.knownLabel (m0 :: L) = .ok lm) (hr : InRange a)
-    (hn : ∀ i : ℤ, E.mu (.int i) = i) (h : condenseToMassAnn E a p = .ok n)
+    (hn : ∀ i : ℤ, E.mu (.int i) = i) (hres : ∀ c, condenseStatic a = .ok c → ∀ m ∈ allMods c, isBad E m = false)
+    (h : condenseToMassAnn E a p = .ok n)
     (hm : ∀ m : Mod, modMass E m = modMass (envC E) m) :
     ∃ c s x, condenseStatic a = .ok c ∧ shiftsOf E c p = .ok s ∧ n = render c s p ∧ massOf E a = .ok x ∧
       |outMass E c s p - x| ≤ (writtenL c s : ℚ) * halfUlp p + (droppedL E lm c : ℚ) * threshold := by
-  obtain ⟨c, s, x, hcd, hs, hn', hx, hb⟩ := condense_mass_label E hc a n p m0 L lm hiso hl hr hn h
+  obtain ⟨c, s, x, hcd, hs, hn', hx, hb⟩ := condense_mass_label E hc a n p m0 L lm hiso hl hr hn hres h
   refine ⟨c, s, x, hcd, hs, hn', hx, ?_⟩
   rw [slack_zero E c hm] at hb
   simpa using hb
@@ -327,17 +330,20 @@ def exCoh : Env :=
 
 theorem exCoh_coherent : Coherent exCoh := by
   refine ⟨fun _ => by simp [exCoh, chemMass]; norm_num, by simp [exCoh, chemMass]; norm_num, ?_, fun _ => by simp [exCoh, NodupKeys],
-    by simp [exCoh, NodupKeys], by simp [exCoh, NodupKeys], by simp [exCoh, NodupKeys], by simp [exCoh, NodupKeys], rfl, rfl, rfl, ?_, rfl⟩
-  · intro x
-    simp only [exCoh, compGet]
-    by_cases h1 : ['H'] = x
-    · subst h1; simp; norm_num
-    · by_cases h2 : ['O'] = x
-      · subst h2; simp
-      · simp [h1, h2]
-  · intro m
-    obtain ⟨v, k⟩ := m
-    cases v <;> simp [isBad, exCoh]
+    by simp [exCoh, NodupKeys], by simp [exCoh, NodupKeys], by simp [exCoh, NodupKeys], by simp [exCoh, NodupKeys], rfl, rfl, rfl, rfl⟩
+  intro x
+  simp only [exCoh, compGet]
+  by_cases h1 : ['H'] = x
+  · subst h1; simp; norm_num
+  · by_cases h2 : ['O'] = x
+    · subst h2; simp
+    · simp [h1, h2]
+
+/-- every modification resolves in `exCoh` -/
+theorem exCoh_resolves : ∀ m : Mod, isBad exCoh m = false := by
+  intro m
+  obtain ⟨v, k⟩ := m
+  cases v <;> simp [isBad, exCoh]
 
 /-- in `exCoh` the tabulated modification masses are exactly the composition masses -/
 theorem exCoh_exact : ∀ m : Mod, modMass exCoh m = modMass (envC exCoh) m := by
